@@ -134,12 +134,34 @@ sys.exit(1 if bad else 0)
 '''
 
 
+def replay_float_sets(label, model):
+    """F32 is uninterpreted in the proof, so the model's reals need not collide natively: try sets of doubles that are distinct
+    but equal at float32 precision, and sets that stay distinct"""
+    return '''
+import sys, io, struct
+from mpgameserver.serializable import serialize_value, deserialize_value
+f32 = lambda x: struct.unpack(">f", struct.pack(">f", x))[0]
+values = [{1.0, 1.0000000001}, {1 / 3, f32(1 / 3)}, {0.1, 0.2}, {1e-3, -1e-3}, {2.5, 2.5000000001, 7.0}]
+bad = []
+for v in values:
+    try:
+        s = io.BytesIO(); serialize_value(s, v); enc = s.getvalue()
+        r = io.BytesIO(enc + b"tail"); w = deserialize_value(r)
+        if w != set(f32(x) for x in v): bad.append("%r decoded as %r" % (v, w))
+        elif r.tell() != len(enc): bad.append("%r: %d bytes written, %d consumed" % (v, len(enc), r.tell()))
+    except Exception as e:
+        bad.append("%r: %r" % (v, e))
+for b in bad: print(b)
+sys.exit(1 if bad else 0)
+'''
+
+
 def leaf_contract(name, make_value, same):
     def setup(E):
         return reader_setup(E, make_value(E))
     body = {
         'setup': setup,
-        'replay': replay_strings if 'str' in name or 'dict' in name else None,
+        'replay': replay_strings if 'str' in name or 'dict' in name else (replay_float_sets if 'float' in name and 'set' in name else None),
         'hooks': STR_HOOKS,
         'ensures': {
             'decodes-to-an-equal-value': lambda result, ghost: same(result, ghost.value),
@@ -472,3 +494,31 @@ for _f in ('deserialize_map', 'deserialize_seq', 'deserialize_set', 'deserialize
 _s = _dsl.REGISTRY['serializable.deserialize_set@hostile-bytes']
 _s.hooks = dict(_s.hooks)
 _s.hooks['comprehension:[deserialize_value(stream, **kwargs) for i in range(length)]'] = set_comprehension
+
+
+# ---- a set of floats: the members come back at float32 precision, so two distinct doubles may legitimately collapse into one member
+def _set_of_floats(E):
+    a, b = E.real('a'), E.real('b')
+    E.assume(S.term(a, 'real') != S.term(b, 'real'))
+    return PySet([a, b])
+
+
+def _same_float_set(r, v):
+    if not isinstance(r, PySet) or len(r.items) not in (1, 2):
+        return False
+    want = [F32(S.term(x, 'real')) for x in v.items]
+    g = True
+    for w in want:              # every expected member is there ...
+        alt = False
+        for x in r.items:
+            alt = ops.or_(alt, S.bool(S.term(x, 'real') == w))
+        g = ops.and_(g, alt)
+    for x in r.items:           # ... and nothing else
+        alt = False
+        for w in want:
+            alt = ops.or_(alt, S.bool(S.term(x, 'real') == w))
+        g = ops.and_(g, alt)
+    return g
+
+
+leaf_contract('set2-float', _set_of_floats, _same_float_set)
